@@ -171,9 +171,15 @@ INT_OPS = [
     ('rand', lambda a, b: b & a), ('ror', lambda a, b: b | a), ('rxor', lambda a, b: b ^ a),
     ('neg', lambda a, b: -a), ('pos', lambda a, b: +a), ('invert', lambda a, b: ~a), ('abs', lambda a, b: abs(a)),
     ('clone', lambda a, b: a.clone(b)), ('subtype', lambda a, b: a.subtype(b)),
+    # the same with a value OBJECT of the unconstrained type / of a wider constrained type as initializer
+    ('clone_obj', lambda a, b: a.clone(univ.Integer(b))), ('subtype_obj', lambda a, b: a.subtype(univ.Integer(b))),
+    ('clone_wide', lambda a, b: a.clone(WIDE_INT.clone(b))),
+    ('ctor_obj', lambda a, b: univ.Integer(univ.Integer(b), subtypeSpec=a.subtypeSpec)),
+    ('subtype_more', lambda a, b: univ.Integer(b).subtype(subtypeSpec=a.subtypeSpec)),
     ('divmod0', lambda a, b: divmod(a, b)),
 ]
 UNARY = {'neg', 'pos', 'invert', 'abs'}
+WIDE_INT = univ.Integer().subtype(subtypeSpec=constraint.ValueRangeConstraint(-100, 100))
 
 
 def part_b(tier, i, n, seed, R, idx0):
@@ -252,6 +258,9 @@ def part_b(tier, i, n, seed, R, idx0):
                     ops.append(('radd', (lambda bv=bv: bv + va)))
                     ops.append(('clone', (lambda bv=bv: va.clone(bv))))
                     ops.append(('subtype', (lambda bv=bv: va.subtype(bv))))
+                    ops.append(('clone_obj', (lambda bv=bv: va.clone(cls(bv)))))
+                    ops.append(('subtype_obj', (lambda bv=bv: va.subtype(cls(bv)))))
+                    ops.append(('ctor_obj', (lambda bv=bv: cls(cls(bv), subtypeSpec=va.subtypeSpec))))
                 for k in (0, 1, 2, 3):
                     ops.append(('mul', (lambda k=k: va * k)))
                     ops.append(('rmul', (lambda k=k: k * va)))
@@ -391,6 +400,42 @@ def part_c(tier, i, n, seed, R, idx0):
                             R.violation('c.assign_member', dict(rec, level=lvl), exc_text(e), 'append accepted',
                                         'type.univ', f2, idx)
                     R.features['c.levels'] += 1
+                # the other direction: a value of an ancestor type that a descendant's constraints reject must not
+                # get into a container declared with the descendant type (checked after the WHOLE chain was derived)
+                for anc in range(0, len(types)):
+                    for des in range(anc + 1, len(types)):
+                        eff_anc = ('AND',) + tuple(chain[:anc]) if anc else None
+                        eff_des = ('AND',) + tuple(chain[:des])
+                        for v in INT_CANDS:
+                            if (eff_anc is not None and not C.admits_raw(eff_anc, v)) or C.admits_raw(eff_des, v):
+                                continue
+                            try:
+                                val = types[anc].clone(v)
+                            except pyerr.PyAsn1Error:
+                                continue
+                            R.evaluations += 1
+                            R.nontrivial((chain, tagged_at, 'neg', anc, des, v))
+                            f3 = feats | {'negative_direction', 'anc:%d' % anc, 'des:%d' % des}
+                            for kind in ('field', 'member'):
+                                if kind == 'field':
+                                    box = univ.Sequence(componentType=namedtype.NamedTypes(namedtype.NamedType('f', types[des])))
+                                    put = lambda: box.setComponentByName('f', val)
+                                    get = lambda: box.getComponentByName('f', default=None, instantiate=False)
+                                else:
+                                    box = univ.SequenceOf(componentType=types[des])
+                                    put = lambda: box.append(val)
+                                    get = lambda: box.getComponentByPosition(0, default=None, instantiate=False)
+                                try:
+                                    put()
+                                except (pyerr.PyAsn1Error, KeyError, IndexError):
+                                    R.features['c.neg_refused'] += 1
+                                    continue
+                                stored = get()
+                                if stored is not None and not C.admits_raw(eff_des, int(stored)):
+                                    R.violation('c.bypass_assign', dict(rec, ancestor=anc, descendant=des, value=v, into=kind),
+                                                'value %d of the level-%d type accepted as %s of a container declared with the '
+                                                'level-%d type whose constraint %s rejects it' % (v, anc, kind, des, C.show(eff_des)),
+                                                'refused', 'type.univ', f3, idx)
     return idx
 
 
